@@ -7,7 +7,7 @@ The list-level mirror of the engine's interpreter (`Model/Interp.lean`), run on 
 the model of the frontend (`Model/Frontend.lean`), computes exactly the rows — same rows, same
 order — that the declarative semantics (`Model/Spec.lean`) assigns to the query tree.
 
-Full target (closed except for folds that IMPORT tags of enclosing components, fragment F3b):
+Full target — CLOSED (`interp_eq_spec` below), under the decidable hypotheses `Hyps3`:
 
     theorem interp_eq_spec (S : SchemaView) (q : Spec.Query) (ir : IRQuery) (D : Data) (args) :
         toIR S q = .ok ir → Hyps3 ⟨S, D, args, edges⟩ q ir →
@@ -19,7 +19,7 @@ depth-first per assignment, so when several rows fail (operator panics F-4/F-5) 
 different *sites*; `toOption` identifies all failures.  The statement still says: one side
 succeeds iff the other does, and then with equal row lists (`interp_ok_iff_spec_ok_F1`).
 
-`Hyps` / `Hyps3` (`Proofs/InterpSpec/HypsDef.lean`, `Proofs/InterpSpec3/HypsDef3.lean`; `Bool`,
+`Hyps` / `Hyps3` (`Proofs/InterpSpec/HypsDef.lean`, `Proofs/InterpSpec4/HypsDef3.lean`; `Bool`,
 evaluated on every generated request by `Driver/C01Hyps.lean`):
  * the specification's completion of the root / edge parameters selects the same table entries
    of the dataset as the frontend's (`paramsAgreeB`, root `start`);
@@ -32,14 +32,14 @@ evaluated on every generated request by `Driver/C01Hyps.lean`):
  * nesting depth ≤ 64 (the fuel of `Spec.rows`);
  * every edge kind lies in the fragment;
  * for a `@fold` (`Hyps3`): a fold with a count filter is never evaluated in a missing optional scope
-   (F-9 guard); every variable of a count filter has an argument; NO fold of the compiled query
-   imports a tag (`noImportsC ir`; with imports the engine's `imported_tags` plumbing — and the
-   F-10 panic on duplicate imports — comes into play: fragment F3b, open);
+   (F-9 guard); every variable of a count filter has an argument; no fold of the compiled query
+   imports the same tag twice (`importsOKC ir`, the F-10 guard: `imported_tags.remove(..).unwrap()`
+   panics on the second removal);
  * for a `@recurse` edge: the dataset convention `recConvB` (a vertex failing the implicit coercion
    between recursion levels has no such edge: `hconv` of `recurse_is_reach`), and `paramsAgreeRecB`
    (the specification completes the edge parameters once, from the starting vertex' declaration).
 -/
-import TrustfallModel.Proofs.InterpSpec3.Bridge
+import TrustfallModel.Proofs.InterpSpec4.Bridge
 
 namespace TF.C01
 open TF TF.Engine TF.Spec TF.Frontend TF.InterpSpec
@@ -112,28 +112,51 @@ theorem interp_eq_spec_F2_default_env (S : SchemaView) (q : Query) (ir : IRQuery
     (interpret (Env.ofData D args) ir).toOption = (Spec.rows ⟨D, args, edges⟩ q).toOption :=
   interp_eq_spec_core S q ir D args edges true 2 (by decide) h hfrag hh
 
-/-- **F3a** — every edge kind incl. `@fold`: folds in arbitrary nesting (also inside `@optional` /
-`@recurse` scopes and inside other folds), outputs inside folds as aligned lists (nested folds:
-lists of lists), `_x_count` outputs, count tags and count filters (on variables, on tags of the
-enclosing component, on counts of earlier folds), the defaults of a fold that does not exist
-(missing scope) or has no element — provided no fold imports a tag of an enclosing component
-(`noImportsC`, part of `Hyps3`).  Fold-count limits are disabled (`useLimits := false`: the
-reference semantics of C22). -/
-theorem interp_eq_spec_F3a (S : SchemaView) (q : Query) (ir : IRQuery) (D : Data)
+/-- **F3 = the main theorem** — every edge kind incl. `@fold`: folds in arbitrary nesting (also
+inside `@optional` / `@recurse` scopes and inside other folds), outputs inside folds as aligned
+lists (nested folds: lists of lists), `_x_count` outputs, count tags and count filters (on
+variables, on tags of the enclosing component, on counts of earlier folds, on the fold's own
+count), tags of enclosing components used inside folds at any depth (`imported_tags`), the defaults
+of a fold that does not exist (missing scope) or has no element.  Fold-count limits are disabled
+(`useLimits := false`: the reference semantics of C22). -/
+theorem interp_eq_spec (S : SchemaView) (q : Query) (ir : IRQuery) (D : Data)
     (args : List (Name × Value)) (edges : List EdgeDecl)
     (h : toIR S q = .ok ir) (hh : Hyps3 ⟨S, D, args, edges⟩ q ir) :
     (interpret { Env.ofData D args with useLimits := false } ir).toOption =
       (Spec.rows ⟨D, args, edges⟩ q).toOption :=
   interp_eq_spec_F3a_core S q ir D args edges false (Or.inl rfl) h hh
 
-theorem interp_ok_iff_spec_ok_F3a (S : SchemaView) (q : Query) (ir : IRQuery) (D : Data)
+theorem interp_ok_iff_spec_ok (S : SchemaView) (q : Query) (ir : IRQuery) (D : Data)
     (args : List (Name × Value)) (edges : List EdgeDecl)
     (h : toIR S q = .ok ir) (hh : Hyps3 ⟨S, D, args, edges⟩ q ir) (rows : List Row) :
     interpret { Env.ofData D args with useLimits := false } ir = .ok rows ↔
       Spec.rows ⟨D, args, edges⟩ q = .ok rows := by
-  have := interp_eq_spec_F3a S q ir D args edges h hh
+  have := interp_eq_spec S q ir D args edges h hh
   cases hi : interpret { Env.ofData D args with useLimits := false } ir <;>
     cases hs : Spec.rows ⟨D, args, edges⟩ q <;> simp_all [R.toOption]
+
+/-- The same theorem under its staging names (F3 / F3a: F3a was the stage without imported tags;
+the hypothesis `Hyps3` now only excludes DUPLICATE imports). -/
+theorem interp_eq_spec_F3 (S : SchemaView) (q : Query) (ir : IRQuery) (D : Data)
+    (args : List (Name × Value)) (edges : List EdgeDecl)
+    (h : toIR S q = .ok ir) (hh : Hyps3 ⟨S, D, args, edges⟩ q ir) :
+    (interpret { Env.ofData D args with useLimits := false } ir).toOption =
+      (Spec.rows ⟨D, args, edges⟩ q).toOption :=
+  interp_eq_spec S q ir D args edges h hh
+
+theorem interp_eq_spec_F3a (S : SchemaView) (q : Query) (ir : IRQuery) (D : Data)
+    (args : List (Name × Value)) (edges : List EdgeDecl)
+    (h : toIR S q = .ok ir) (hh : Hyps3 ⟨S, D, args, edges⟩ q ir) :
+    (interpret { Env.ofData D args with useLimits := false } ir).toOption =
+      (Spec.rows ⟨D, args, edges⟩ q).toOption :=
+  interp_eq_spec S q ir D args edges h hh
+
+theorem interp_ok_iff_spec_ok_F3a (S : SchemaView) (q : Query) (ir : IRQuery) (D : Data)
+    (args : List (Name × Value)) (edges : List EdgeDecl)
+    (h : toIR S q = .ok ir) (hh : Hyps3 ⟨S, D, args, edges⟩ q ir) (rows : List Row) :
+    interpret { Env.ofData D args with useLimits := false } ir = .ok rows ↔
+      Spec.rows ⟨D, args, edges⟩ q = .ok rows :=
+  interp_ok_iff_spec_ok S q ir D args edges h hh rows
 
 /-! ### non-vacuity: a concrete world inside the fragment, hypotheses decided by the kernel
 
@@ -165,6 +188,18 @@ def exQ3 : Query :=
       (.mk none [.prop "n" [.output "o2"],
         .edge "e" [] (.fold []) (.mk none [.prop "n" [.output "o3"]])])]⟩
 
+/-- A fold that imports a tag of the enclosing component:
+`{ R { n @tag(t) @output(o1) e @fold { n @output(o2) @filter(>=, %t) } } }`. -/
+def exQ4 : Query :=
+  ⟨"R", [], .mk none [.prop "n" [.tag "t", .output "o1"],
+    .edge "e" [] (.fold [])
+      (.mk none [.prop "n" [.output "o2", .filter (.bin .greaterThanOrEqual) (.tag "t")]])]⟩
+
+example : (match toIR exS exQ4 with
+    | .ok ir => decide (Hyps3 ⟨exS, exD, [], []⟩ exQ4 ir) &&
+        !(match ir.rootComponent.folds with | f :: _ => f.imports.isEmpty | [] => true)
+    | .error _ => false) = true := by decide
+
 example : (match toIR exS exQ3 with
     | .ok ir => decide (Hyps3 ⟨exS, exD, [("v", .int64 0)], []⟩ exQ3 ir)
     | .error _ => false) = true := by decide
@@ -178,5 +213,8 @@ end TF.C01
 #print axioms TF.C01.interp_eq_spec_F2
 #print axioms TF.C01.interp_ok_iff_spec_ok_F2
 #print axioms TF.C01.interp_eq_spec_F2_default_env
+#print axioms TF.C01.interp_eq_spec
+#print axioms TF.C01.interp_ok_iff_spec_ok
+#print axioms TF.C01.interp_eq_spec_F3
 #print axioms TF.C01.interp_eq_spec_F3a
 #print axioms TF.C01.interp_ok_iff_spec_ok_F3a
